@@ -17,7 +17,7 @@
 (***************************************************************************)
 EXTENDS McaCore, Json
 
-CONSTANTS Nets,       \* subset of {"chain2", "branch", "rev", "cycle", "pl"}
+CONSTANTS Nets,       \* subset of {"chain2", "branch", "rev", "cycle", "ia", "pl"}
           Grid,       \* "quick" | "mid" | "full"
           EmitOn
 VARIABLES nm, env, ph
@@ -43,42 +43,53 @@ Net(n) ==
     CASE n = "chain2" ->
             [vars |-> <<"x1", "x2">>, pars |-> <<"kin", "k1", "k2">>,
              rxns |-> <<Rx("v0", kin, In1), Rx("v1", Mul(k1, x1), X1X2), Rx("v2", Mul(k2, x2), Out2)>>,
-             ss |-> ("x1" :> Div(kin, k1)) @@ ("x2" :> Div(kin, k2)), cons |-> <<>>]
+             ss |-> ("x1" :> Div(kin, k1)) @@ ("x2" :> Div(kin, k2)), cons |-> <<>>, init |-> <<>>]
       [] n = "branch" ->
             [vars |-> <<"x1", "x2">>, pars |-> <<"kin", "k1", "k2", "k3">>,
              rxns |-> <<Rx("v0", kin, In1), Rx("v1", Mul(k1, x1), X1X2), Rx("v2", Mul(k2, x2), Out2),
                         Rx("v3", Mul(k3, x1), Out1)>>,
-             ss |-> ("x1" :> Div(kin, Add(k1, k3))) @@ ("x2" :> Div(Mul(k1, kin), Mul(Add(k1, k3), k2))), cons |-> <<>>]
+             ss |-> ("x1" :> Div(kin, Add(k1, k3))) @@ ("x2" :> Div(Mul(k1, kin), Mul(Add(k1, k3), k2))), cons |-> <<>>, init |-> <<>>]
       [] n = "rev" ->
             [vars |-> <<"x1", "x2">>, pars |-> <<"kin", "k1", "km", "k2">>,
              rxns |-> <<Rx("v0", kin, In1), Rx("v1", Sub(Mul(k1, x1), Mul(km, x2)), X1X2), Rx("v2", Mul(k2, x2), Out2)>>,
-             ss |-> ("x1" :> Div(Add(kin, Div(Mul(km, kin), k2)), k1)) @@ ("x2" :> Div(kin, k2)), cons |-> <<>>]
+             ss |-> ("x1" :> Div(Add(kin, Div(Mul(km, kin), k2)), k1)) @@ ("x2" :> Div(kin, k2)), cons |-> <<>>, init |-> <<>>]
       [] n = "cycle" ->  \* closed loop x1 <-> x2: the total T = x1 + x2 of the STARTING state is conserved, so the
                          \* steady state is a function of the parameters AND of the state the analysis starts from
             [vars |-> <<"x1", "x2">>, pars |-> <<"k1", "k2">>,
              rxns |-> <<Rx("v1", Mul(k1, x1), X1X2), Rx("v2", Mul(k2, x2), X2X1)>>,
              ss |-> ("x1" :> Div(Mul(Sym("T"), k2), Add(k1, k2))) @@ ("x2" :> Div(Mul(Sym("T"), k1), Add(k1, k2))),
-             cons |-> <<[name |-> "T", members |-> <<"x1", "x2">>]>>]
+             cons |-> <<[name |-> "T", members |-> <<"x1", "x2">>]>>, init |-> <<>>]
+      [] n = "ia" ->     \* closed power-law loop whose INITIAL VALUES are assignment rules of parameters:
+                         \* x1(0) = frac * T, x2(0) = T - x1(0).  "At the given state" with variables=None is the model's
+                         \* initial state computed ONCE: elasticities stay PARTIAL derivatives (state held fixed), so
+                         \* the fluxes have elasticity 0 w.r.t. T and frac although the state depends on them.
+            [vars |-> <<"x1", "x2">>, pars |-> <<"k1", "k2", "T", "frac">>,
+             rxns |-> <<Rx("v1", Mul(k1, Pow(x1, 2)), X1X2), Rx("v2", Mul(k2, x2), X2X1)>>,
+             ss |-> NoSS, cons |-> <<>>,
+             init |-> ("x1" :> Mul(Sym("frac"), Sym("T"))) @@ ("x2" :> Sub(Sym("T"), x1))]
       [] n = "pl" ->     \* power laws of several orders (no closed-form steady state: elasticities only)
             [vars |-> <<"x1", "x2">>, pars |-> <<"kin", "k1", "k2", "k3">>,
              rxns |-> <<Rx("v0", kin, In1), Rx("v1", Mul(k1, Pow(x1, 2)), X1X2), Rx("v2", Mul(Mul(k2, x1), x2), Out2),
                         Rx("v3", Mul(Pow(k3, 2), x2), Out2), Rx("v4", Div(Mul(k1, x1), x2), Out1),
                         Rx("v5", Mul(Mul(k1, k2), Pow(x2, 3)), Out2)>>,
-             ss |-> NoSS, cons |-> <<>>]
+             ss |-> NoSS, cons |-> <<>>, init |-> <<>>]
 
 \* values per symbol (all positive; rate constants >= 1/2 keep the networks fast-relaxing)
-ValsOf(s) == CASE Grid = "full"  -> {R(1, 2), RInt(1), RInt(2), RInt(3)}
-               [] Grid = "mid"   -> {R(1, 2), RInt(1), RInt(3)}
-               [] Grid = "quick" -> IF s \in {"x1", "x2"} THEN {R(1, 2), RInt(3)}
+ValsOf(s) == CASE Grid = "full"  -> IF s = "frac" THEN {R(1, 4), R(1, 2), R(3, 4)} ELSE {R(1, 2), RInt(1), RInt(2), RInt(3)}
+               [] Grid = "mid"   -> IF s = "frac" THEN {R(1, 4), R(1, 2)} ELSE {R(1, 2), RInt(1), RInt(3)}
+               [] Grid = "quick" -> IF s = "frac" THEN {R(1, 4), R(1, 2)} ELSE IF s = "T" THEN {RInt(2), RInt(4)}
+                                    ELSE IF s \in {"x1", "x2"} THEN {R(1, 2), RInt(3)}
                                     ELSE IF s = "kin" THEN {R(1, 2), RInt(2)} ELSE {RInt(1), RInt(3)}
-Syms(net) == net.vars \o net.pars
+\* variables with an assignment rule are not free: their value is the rule's value at the parameters (and earlier variables)
+Syms(net) == IF DOMAIN net.init = {} THEN net.vars \o net.pars ELSE net.pars \o net.vars
+ValsAt(net, s, e) == IF s \in DOMAIN net.init THEN {Eval(net.init[s], e)} ELSE ValsOf(s)
 
 Init == nm \in Nets /\ env = <<>> /\ ph = "build"
 Next == /\ ph = "build"
         /\ LET ss == Syms(Net(nm))
                j == Cardinality(DOMAIN env) + 1
            IN  IF j > Len(ss) THEN ph' = "done" /\ UNCHANGED <<nm, env>>
-               ELSE \E v \in ValsOf(ss[j]) : env' = env @@ (ss[j] :> v) /\ UNCHANGED <<nm, ph>>
+               ELSE \E v \in ValsAt(Net(nm), ss[j], env) : env' = env @@ (ss[j] :> v) /\ UNCHANGED <<nm, ph>>
 
 Done == ph = "done"
 N == Net(nm)
@@ -114,6 +125,13 @@ QuotNearD == (Done /\ HasSS(N)) =>
         LET dd == ConcRC(N, x, q, PEnv)
             qq == ConcQ(N, x, q, PEnv, HQ)
         IN  RLe(RAbs(RSub(qq, dd)), RMul(RMul(RInt(2), RSq(HQ)), RAbs(dd)))
+
+\* the family can tell a partial derivative from a total one: substituting the assignment rules into a rate and
+\* differentiating (what re-deriving the state after each displacement computes) gives something else
+TotalDiffers == (Done /\ nm = "ia") =>
+    \E r \in RxnSet : Eval(D(Subst(Subst(Rate(N, r), N.init), N.init), "T"), env) # Unscaled(N, r, "T", env)
+\* the state of such a point IS the model's initial state
+InitIsState == Done => \A x \in DOMAIN N.init : env[x] = Eval(N.init[x], env)
 
 Table(rows, cols, F(_, _)) == [a \in rows |-> [b \in cols |-> F(a, b)]]
 
